@@ -257,6 +257,11 @@ func (b *builder) buildEnvs() error {
 
 // buildLogDir builds the log directory for the DAG.
 func (b *builder) buildLogDir() (err error) {
+	if b.opts.noEval {
+		// listing, viewing or validating a definition must not run anything
+		b.dag.LogDir = b.def.LogDir
+		return nil
+	}
 	logDir, err := substituteCommands(os.ExpandEnv(b.def.LogDir))
 	if err != nil {
 		return err
